@@ -1,13 +1,27 @@
 // Package semkeys: harness command `sem-keys`.
 //
 // Semantic-layer differential: the IR of sem-addprops (scalars, any, arrays, objects with
-// additionalProperties, references to four named types, nullable) plus key shortcuts `@k: value` in objects,
-// over four fixed key types (@k0 = "ab" {minLength: 2}, @k1 = "a" {maxLength: 1}, @k2 = "zz" without rules,
-// @k3 = "abc" {minLength: 3}). JSight text -> real Check / Validate; the same IR (shortcut entries tagged K,
-// in declaration order) as S-expressions -> Lean VK.validateT: an unknown document key takes the first unused
-// shortcut, in declaration order, whose key type accepts it; no backtracking; then additionalProperties
-// (driver word `semk`).
+// additionalProperties, references to four named types, nullable) plus key shortcuts `@k: value` in objects.
+// JSight text -> real Check / Validate; the same IR (shortcut entries tagged K, in declaration order) as
+// S-expressions -> Lean VK.validateT: an unknown document key takes the first unused shortcut, in declaration
+// order, whose key type accepts it; no backtracking; then additionalProperties (driver word `semk`).
 // Compared verdict: real Validate(document) == nil  ⇔  model reply ACC.
+//
+// Key types. VK.validateT is parametric in the predicate keyOK (key type, key); the driver instantiates it with
+// four fixed predicates: k0 = length >= 2, k1 = length <= 1, k2 = the key "zz", k3 = length >= 3. One table in
+// three uses exactly these as the real key types (@k0 = "ab" {minLength: 2}, @k1 = "a" {maxLength: 1}, @k2 = "zz"
+// without rules, @k3 = "abc" {minLength: 3}). The other tables draw 1-3 STRING TYPES WITH ARBITRARY RULE SETS
+// (no rule = equality with the example, enum, any non-empty subset of regex / minLength / maxLength, optionally
+// with type "string", rules in random order) and, per type, probe keys that satisfy every rule and probe keys
+// that violate EXACTLY ONE rule while satisfying the others (plus keys violating several). Whether a string
+// type accepts a key is computed in Go (regexp, byte length, enum membership) and CHECKED AGAINST THE LEAN RULE
+// MODEL for every (type, key) pair in use (driver word `semcf`, RulesF.litOKFull, regex as an oracle bit: the
+// protocol of sem-rules-full). The table is then expressed in the fixed vocabulary of `semk` by renaming: every
+// real type takes one of the slots k0..k3 and every real key k is sent as a model key whose verdicts under the
+// four fixed predicates equal the verdicts of k under the real types in the same slots (keys are only compared
+// for equality otherwise, so an injective renaming preserves the model's meaning; named keys are renamed the
+// same way). A key whose verdict vector no model key has (e.g. accepted by the types in k1 and k3 at once) is
+// left out of that table's key pool; the slot assignment is chosen among those that keep most of the pool.
 package semkeys
 
 import (
@@ -60,6 +74,8 @@ var typeNames = []string{"t0", "t1", "t2", "t3"}
 // gen carries the PRNG of one type table (all random choices of the table and its documents).
 type gen struct {
 	r    *rand.Rand
+	kc   *keyCtx
+	near bool   // the document sampled last gives a shortcut a key that violates exactly one rule of its key type
 	mut  string // kind of the last document mutation
 	look bool   // the document printed last holds a look-alike string
 }
@@ -89,13 +105,17 @@ func (g *gen) genNode(depth int, allowRef bool) *Node {
 			n.Add = adds[r.Intn(len(adds))]
 		}
 		cnt := r.Intn(4)
-		for i := 0; i < cnt; i++ {
-			n.Props = append(n.Props, &Prop{Key: string("abcf"[i]), Required: r.Intn(3) != 0, Val: g.genNode(depth-1, allowRef)})
+		for i := 0; i < cnt && i < len(g.kc.named); i++ {
+			n.Props = append(n.Props, &Prop{Key: g.kc.named[i], Required: r.Intn(3) != 0, Val: g.genNode(depth-1, allowRef)})
 		}
-		if allowRef && r.Intn(2) == 0 {
-			perm := r.Perm(4)
+		if allowRef && r.Intn(3) != 0 {
+			slots := g.kc.slots()
+			perm := r.Perm(len(slots))
 			for i := r.Intn(3); i > 0; i-- {
-				p := &Prop{Short: true, Key: fmt.Sprintf("k%d", perm[i]), Required: r.Intn(3) != 0, Val: g.genNode(depth-1, allowRef)}
+				if i >= len(perm) {
+					continue
+				}
+				p := &Prop{Short: true, Key: slots[perm[i]], Required: r.Intn(3) != 0, Val: g.genNode(depth-1, allowRef)}
 				pos := r.Intn(len(n.Props) + 1)
 				n.Props = append(n.Props[:pos], append([]*Prop{p}, n.Props[pos:]...)...)
 			}
@@ -119,13 +139,6 @@ func (g *gen) genNode(depth int, allowRef bool) *Node {
 		return &Node{Kind: "any"}
 	}
 }
-
-var docKeys = []string{"a", "b", "c", "f", "e", "q", "zz", "ab", "xy", "abc", "wxyz"}
-var keyTypeNames = []string{"k0", "k1", "k2", "k3"}
-var keyTypeText = map[string]string{"k0": `"ab" // {minLength: 2}`, "k1": `"a" // {maxLength: 1}`, "k2": `"zz"`, "k3": `"abc" // {minLength: 3}`}
-
-// document keys the sampler uses for a shortcut of the given key type (one of the first two)
-var shortKeys = map[string][]string{"k0": {"xy", "ab", "wxyz"}, "k1": {"q", "e"}, "k2": {"zz"}, "k3": {"abc", "wxyz"}}
 
 // String tokens whose content looks like another JSON kind (the model says: a quoted token is a string, full stop),
 // plain and with escapes. Document string scalars are drawn from this pool every second time; a case whose document
@@ -212,7 +225,7 @@ func b01(v bool) string {
 	return "0"
 }
 
-func sx(n *Node) string {
+func sx(n *Node, phi map[string]string) string {
 	switch n.Kind {
 	case "lit":
 		return "(lit " + n.Lit + " " + b01(n.Nullable) + ")"
@@ -223,7 +236,7 @@ func sx(n *Node) string {
 	case "arr":
 		s := "(arr"
 		for _, it := range n.Items {
-			s += " " + sx(it)
+			s += " " + sx(it, phi)
 		}
 		return s + ")"
 	default:
@@ -233,7 +246,11 @@ func sx(n *Node) string {
 			if p.Short {
 				tag = "K"
 			}
-			s += " (" + tag + " " + p.Key + " " + b01(p.Required) + " " + sx(p.Val) + ")"
+			key := p.Key
+			if !p.Short {
+				key = phi[key]
+			}
+			s += " (" + tag + " " + key + " " + b01(p.Required) + " " + sx(p.Val, phi) + ")"
 		}
 		return s + ")"
 	}
@@ -281,7 +298,7 @@ func (g *gen) genDoc(depth int) *Doc {
 	default:
 		d := &Doc{Kind: "o"}
 		for i := r.Intn(4); i > 0; i-- {
-			d.Keys = append(d.Keys, docKeys[r.Intn(len(docKeys))])
+			d.Keys = append(d.Keys, g.kc.pool[r.Intn(len(g.kc.pool))])
 			d.Items = append(d.Items, g.genDoc(depth-1))
 		}
 		return d
@@ -329,8 +346,17 @@ func (g *gen) sample(n *Node, types map[string]*Node, fuel int) *Doc {
 			if p.Required || r.Intn(2) == 0 {
 				k := p.Key
 				if p.Short {
-					ks := shortKeys[p.Key]
-					k = ks[r.Intn(2)%len(ks)]
+					// a key the key type accepts; 2 times in 5 a key that violates exactly one of its rules
+					acc, near := g.kc.accepted[p.Key], g.kc.nearMiss[p.Key]
+					switch {
+					case len(near) > 0 && (len(acc) == 0 || r.Intn(5) < 2):
+						k = near[r.Intn(len(near))]
+						g.near = true
+					case len(acc) > 0:
+						k = acc[r.Intn(len(acc))]
+					default:
+						continue
+					}
 				}
 				d.Keys = append(d.Keys, k)
 				d.Items = append(d.Items, g.sample(p.Val, types, fuel-1))
@@ -361,7 +387,7 @@ func (g *gen) sample(n *Node, types map[string]*Node, fuel int) *Doc {
 			if r.Intn(4) == 0 { // whatever the mode: a string value that looks like another kind
 				v = &Doc{Kind: "l", Lit: "s", Look: true}
 			}
-			d.Keys = append(d.Keys, "e")
+			d.Keys = append(d.Keys, g.kc.additionalKey(r))
 			d.Items = append(d.Items, v)
 		}
 		return d
@@ -391,7 +417,7 @@ func (g *gen) mutateDoc(d *Doc) *Doc {
 		if d.Kind == "o" { // add / repeat a member
 			g.mut = "add_member"
 			nd := &Doc{Kind: "o", Keys: append([]string{}, d.Keys...), Items: append([]*Doc{}, d.Items...)}
-			nd.Keys = append(nd.Keys, docKeys[r.Intn(len(docKeys))])
+			nd.Keys = append(nd.Keys, g.kc.pool[r.Intn(len(g.kc.pool))])
 			nd.Items = append(nd.Items, g.genDoc(1))
 			return nd
 		}
@@ -446,20 +472,20 @@ func (g *gen) docText(d *Doc) string {
 	}
 }
 
-func docSx(d *Doc) string {
+func docSx(d *Doc, phi map[string]string) string {
 	switch d.Kind {
 	case "l":
 		return "(l " + d.Lit + ")"
 	case "a":
 		s := "(a"
 		for _, it := range d.Items {
-			s += " " + docSx(it)
+			s += " " + docSx(it, phi)
 		}
 		return s + ")"
 	default:
 		s := "(o"
 		for i, k := range d.Keys {
-			s += " (m " + k + " " + docSx(d.Items[i]) + ")"
+			s += " (m " + phi[k] + " " + docSx(d.Items[i], phi) + ")"
 		}
 		return s + ")"
 	}
@@ -475,7 +501,7 @@ func errCode(err error) string {
 
 // validate: a fresh schema object per call, as a user would write it; every library call under recover.
 // Result: ACC | REJ | ADDERR <code> … | CHECKERR <code> … | PANIC …
-func validate(rootText string, typeTexts map[string]string, order []string, doc string) string {
+func validate(kc *keyCtx, rootText string, typeTexts map[string]string, order []string, doc string) string {
 	return vh.Recover(func() string {
 		s := jschema.New("root", rootText)
 		for _, nm := range order {
@@ -483,8 +509,8 @@ func validate(rootText string, typeTexts map[string]string, order []string, doc 
 				return "ADDERR " + errCode(err) + " " + err.Error()
 			}
 		}
-		for _, nm := range keyTypeNames {
-			if err := s.AddType("@"+nm, jschema.New("@"+nm, keyTypeText[nm])); err != nil {
+		for _, t := range kc.types {
+			if err := s.AddType("@"+t.slot, jschema.New("@"+t.slot, t.text)); err != nil {
 				return "ADDERR " + errCode(err) + " " + err.Error()
 			}
 		}
@@ -614,24 +640,28 @@ func emptyAlts(types map[string]*Node, names []string) bool {
 
 type oneCase struct {
 	line, impl, input string
+	key               string // key types and renaming (part of the identity of the case)
 	nontrivial        bool
 	class             string // known-finding class the table lies in, if the generator can tell
 	stats             []string
 }
 
 type tableResult struct {
-	stats []string
-	cases []oneCase
+	stats    []string
+	cases    []oneCase
+	oracle   []string // semcf requests: does the key type accept the key …
+	oracleGo []bool   // … and the verdict the renaming was built from
+	oracleIn []string // the key types as text
 }
 
-func showInput(rootText string, typeTexts map[string]string, doc string) string {
+func showInput(kc *keyCtx, rootText string, typeTexts map[string]string, doc string) string {
 	var sb strings.Builder
 	sb.WriteString("SCHEMA:\n" + rootText + "\nTYPES (AddType name = text):")
 	for _, nm := range typeNames {
 		sb.WriteString("\n@" + nm + " = " + typeTexts[nm])
 	}
-	for _, nm := range keyTypeNames {
-		sb.WriteString("\n@" + nm + " = " + keyTypeText[nm])
+	for _, t := range kc.types {
+		sb.WriteString("\n@" + t.slot + " = " + t.text)
 	}
 	sb.WriteString("\nDOCUMENT: " + doc)
 	return sb.String()
@@ -641,18 +671,19 @@ func showInput(rootText string, typeTexts map[string]string, doc string) string 
 func oneTable(seed int64) tableResult {
 	g := &gen{r: rand.New(rand.NewSource(seed))}
 	var res tableResult
+	g.kc = newKeyCtx(g.r)
 	types := map[string]*Node{}
 	typeTexts := map[string]string{}
 	env := "(env"
 	for _, nm := range typeNames {
 		types[nm] = g.genNode(2, true)
 		typeTexts[nm] = strings.Join(printNode(types[nm], 0, "", "", false), "\n")
-		env += " (t " + nm + " " + sx(types[nm]) + ")"
+		env += " (t " + nm + " " + sx(types[nm], g.kc.phi) + ")"
 	}
 	env += ")"
 	root := g.genNode(3, true)
 	rootText := strings.Join(printNode(root, 0, "", "", false), "\n")
-	if v := validate(rootText, typeTexts, typeNames, "1"); strings.HasPrefix(v, "CHECKERR") || strings.HasPrefix(v, "ADDERR") || strings.HasPrefix(v, "PANIC") {
+	if v := validate(g.kc, rootText, typeTexts, typeNames, "1"); strings.HasPrefix(v, "CHECKERR") || strings.HasPrefix(v, "ADDERR") || strings.HasPrefix(v, "PANIC") {
 		w := strings.SplitN(v, " ", 3)
 		res.stats = append(res.stats, "check_failed")
 		if w[0] == "PANIC" {
@@ -670,6 +701,15 @@ func oneTable(seed int64) tableResult {
 		res.stats = append(res.stats, "table_uninhabited_alias_cycle_reachable")
 	}
 	res.stats = append(res.stats, "tables_checked", "root_"+root.Kind)
+	res.stats = append(res.stats, g.kc.stats...)
+	res.oracle, res.oracleGo = g.kc.oracle, g.kc.oracleGo
+	for _, t := range g.kc.types {
+		res.oracleIn = append(res.oracleIn, "@"+t.slot+" = "+t.text)
+	}
+	ktText := g.kc.mapText()
+	for _, t := range g.kc.types {
+		ktText += " @" + t.slot + "=" + t.text
+	}
 	for _, fl := range []struct {
 		on bool
 		nm string
@@ -687,14 +727,18 @@ func oneTable(seed int64) tableResult {
 	if len(f.adds) > 0 {
 		res.stats = append(res.stats, "table_uses_additionalProperties")
 	}
-	rootSx := sx(root)
+	rootSx := sx(root, g.kc.phi)
 	for j := 0; j < 12; j++ {
 		var d *Doc
 		var st []string
 		switch {
 		case j < 5:
+			g.near = false
 			d = g.sample(root, types, 6)
 			st = append(st, "doc_sampled")
+			if g.near {
+				st = append(st, "doc_sampled_with_key_violating_exactly_one_rule_under_shortcut")
+			}
 		case j < 10:
 			g.mut = "none"
 			d = g.mutateDoc(g.sample(root, types, 6))
@@ -705,11 +749,11 @@ func oneTable(seed int64) tableResult {
 		}
 		g.look = false
 		dt := g.docText(d)
-		v := validate(rootText, typeTexts, typeNames, dt)
+		v := validate(g.kc, rootText, typeTexts, typeNames, dt)
 		if g.look {
 			st = append(st, "doc_with_lookalike_string")
 			for k := 1; k < 8; k++ {
-				if w := validate(rootText, typeTexts, typeNames, dt); w != v {
+				if w := validate(g.kc, rootText, typeTexts, typeNames, dt); w != v {
 					v = fmt.Sprintf("UNSTABLE: call 1 = %s, call %d = %s", v, k+1, w)
 					break
 				}
@@ -725,9 +769,10 @@ func oneTable(seed int64) tableResult {
 		}
 		st = append(st, "doc_root_"+d.Kind)
 		res.cases = append(res.cases, oneCase{
-			line:  prefix + " val " + env + " " + rootSx + " " + docSx(d),
+			line:  prefix + " val " + env + " " + rootSx + " " + docSx(d, g.kc.phi),
+			key:   ktText,
 			impl:  v,
-			input: showInput(rootText, typeTexts, dt),
+			input: showInput(g.kc, rootText, typeTexts, dt),
 			// an object with a key shortcut is reachable from the root
 			nontrivial: f.short,
 			stats:      st,
@@ -738,9 +783,10 @@ func oneTable(seed int64) tableResult {
 }
 
 func Run(args []string) {
-	rep := vh.NewReport(command, "random type tables as in sem-addprops (4 named types, root of depth<=3, recursive references, nullable, additionalProperties) where every second object gets 0-2 key shortcuts @k0..@k3 (required or optional, inserted at random positions among the named properties) over four fixed key types (minLength 2, maxLength 1, no rules = equality with the example, minLength 3: overlapping key sets); document keys from a pool of 11 keys of length 1-4; JSight text -> real AddType/Check/Validate, same IR with shortcuts tagged K in declaration order -> Lean VK.validateT; 12 documents per table: 5 sampled from the schema (a shortcut gets a key its key type accepts), 5 sampled then mutated, 2 random; tables refused by Check are skipped and counted by error code; nontrivial = an object with a key shortcut is reachable from the root; document string scalars are drawn every second time from a pool of 32 strings whose content looks like another JSON kind (\"1.5\", \"a.b\", \"true\", \"null\", \"{}\", \"1e5\", \"\", \" \", the same with \\u escapes), also as the value of the extra member under every additionalProperties mode one time in four; a case whose document holds such a string is validated 8 times and every repeat must give the model verdict (UNSTABLE otherwise); a difference on a table where a non-nullable reference position whose names all end in a cycle of pure references (@a = @a: no alternative at all) is reachable from the root carries the class K-C09-cycle")
+	rep := vh.NewReport(command, "random type tables as in sem-addprops (4 named types, root of depth<=3, recursive references, nullable, additionalProperties in every mode) where two objects in three get 0-2 key shortcuts @k0..@k3 (required or optional, inserted at random positions among the named properties). KEY TYPES: one table in three uses the four fixed key types whose accepted sets are the driver's predicates (minLength 2, maxLength 1, no rules = equality with the example, minLength 3: overlapping key sets; 11 document keys of length 1-4); two tables in three draw 1-3 string types with arbitrary rule sets: no rule, enum (1-4 items), any non-empty subset of regex (12 patterns) / minLength / maxLength (two or three rules 3 times in 4), optionally type string, rules in random order; per type the key pool gets up to 2 keys satisfying every rule, up to 2 keys per rule violating EXACTLY that rule while satisfying the others (the example one character longer / shorter at either end, one character replaced by a letter of another class, repeated to maxLength+1, cut to minLength-1), a key violating several, plus common keys; names of properties are drawn from the same pool. The verdict (string type, key) is computed in Go and checked against the Lean rule model RulesF.litOKFull (driver semcf, regex as oracle bit) for every pair in use (component sem-keys/key-type-oracle); the table is sent to VK.validateT in the fixed vocabulary of driver semk by renaming: each real type takes one slot k0..k3 and each real key is sent as a model key with the same verdict vector under the four fixed predicates (injective; keys whose vector no model key has are left out of the pool; the slot assignment keeps most of the pool); a diff's note lists the renaming. JSight text -> real AddType/Check/Validate, same IR with shortcuts tagged K in declaration order -> Lean VK.validateT; 12 documents per table: 5 sampled from the schema (a shortcut gets a key its key type accepts, 2 times in 5 a key violating exactly one rule of it; the extra member under additionalProperties gets a key no key type accepts 3 times in 4), 5 sampled then mutated, 2 random; tables refused by Check are skipped and counted by error code; nontrivial = an object with a key shortcut is reachable from the root; document string scalars are drawn every second time from a pool of 32 strings whose content looks like another JSON kind (\"1.5\", \"a.b\", \"true\", \"null\", \"{}\", \"1e5\", \"\", \" \", the same with \\u escapes), also as the value of the extra member under every additionalProperties mode one time in four; a case whose document holds such a string is validated 8 times and every repeat must give the model verdict (UNSTABLE otherwise); a difference on a table where a non-nullable reference position whose names all end in a cycle of pure references (@a = @a: no alternative at all) is reachable from the root carries the class K-C09-cycle")
 	r := vh.NewRand(salt)
-	nTables := vh.Pick(3000, 100000)
+	nTables := vh.Pick(4000, 100000)
+	oracleSeen := map[string]struct{}{}
 	const batch = 4000
 	for done := 0; done < nTables; done += batch {
 		n := batch
@@ -768,7 +814,7 @@ func Run(args []string) {
 			}()
 		}
 		wg.Wait()
-		var reqs, impl, inputs, classes []string
+		var reqs, impl, inputs, classes, notes, oReqs, oGo, oIn []string
 		for _, res := range results {
 			rep.Stat("tables_generated")
 			for _, s := range res.stats {
@@ -778,16 +824,32 @@ func Run(args []string) {
 				for _, s := range c.stats {
 					rep.Stat(s)
 				}
-				rep.Case(c.line, c.nontrivial)
+				rep.Case(c.line+c.key, c.nontrivial)
 				reqs = append(reqs, c.line)
 				impl = append(impl, c.impl)
 				inputs = append(inputs, c.input)
 				classes = append(classes, c.class)
+				notes = append(notes, c.line+c.key)
+			}
+			// the verdicts of the key types the renaming was built from, against the Lean rule model
+			for i, l := range res.oracle {
+				if _, ok := oracleSeen[l]; !ok {
+					oracleSeen[l] = struct{}{}
+					rep.Stat("key_type_verdicts_checked_against_rule_model")
+					oReqs = append(oReqs, l)
+					oGo = append(oGo, map[bool]string{true: "ACC", false: "REJ"}[res.oracleGo[i]])
+					oIn = append(oIn, strings.Join(res.oracleIn, "\n"))
+				}
 			}
 		}
 		for i, m := range vh.AskModelSharded(reqs, 16) {
 			if impl[i] != m {
-				rep.AddDiff(vh.Diff{Input: inputs[i], Impl: impl[i], Model: m, Class: classes[i], Note: reqs[i]})
+				rep.AddDiff(vh.Diff{Input: inputs[i], Impl: impl[i], Model: m, Class: classes[i], Note: notes[i]})
+			}
+		}
+		for i, m := range vh.AskModelSharded(oReqs, 16) {
+			if oGo[i] != m {
+				rep.AddDiff(vh.Diff{Component: command + "/key-type-oracle", Level: "correspondence", Input: "KEY TYPES:\n" + oIn[i] + "\nREQUEST: " + oReqs[i], Impl: "harness verdict " + oGo[i], Model: m})
 			}
 		}
 	}
